@@ -44,6 +44,7 @@ JOBS["C18"] = [
 
 JOBS["C01"] = [
     H("machine", "beaconnet", "^TestMachine$", {"shards": 12, "checks": 25, "timeout": 900, "env": {"VERIF_PROP": "C01"}}, {"shards": 14, "checks": 400, "timeout": 3400, "env": {"VERIF_PROP": "C01"}}),
+    H("http", "httpsrv", "^TestC01HTTP$", {"shards": 6, "checks": 12, "timeout": 1200}, {"shards": 14, "checks": 300, "timeout": 3400}),
     I("publicrand", "internal/core", "^TestVerifC01PublicRand$", {"shards": 4, "checks": 3, "timeout": 1200}, {"shards": 8, "checks": 40, "timeout": 3400}),
 ]
 JOBS["C02"] = [
@@ -196,7 +197,10 @@ RULES = {
            "non-member index, receiver's own index, truncated, bit-flipped, empty, replay of a counted member) in a drawn order. Oracle: a node's first Put of round R requires >= t distinct members whose partial for exactly "
            "(R, previous signature) the harness verified independently and whose delivery started before the Put (own partial counts if emitted by then); with fewer than t contributing members no node ever stores a round; "
            "positive control: >= t delivered => beacon appears. Non-trivial: some observer/round had exactly t-1 valid partials with junk present, or fewer than t members were up; distinct by configuration + delivery script.",
-    "C01": _MACHINE + "Oracle: every successful base-store Put of round>=1 and every streamed beacon verifies under the harness's own digest + group key for exactly that round/previous signature. "
+    "C01": "(http) the real handler/http server registered with a model client (chain signed by the harness) whose watch stream items are drawn (next round, skip of 1-2 rounds, repeat, older, stream restart), interleaved with 0-3 requests waiting for the round after the latest "
+           "and direct requests for head, head-3, head+1, latest: a 2xx answer is the JSON of the beacon of exactly the requested round, verifying under the chain key, randomness = sha256(signature). (daemon) a real single-member daemon produces rounds on a fake clock (single ticks, bursts of 2-3 "
+           "with drawn real-time gaps, and in half of the cases bursts of 3-6 genuine beacons stored back to back the way a catch-up sync does) while 4/16/48 concurrent requesters call PublicRand for head+1 (the waiter path), head, latest, round 1 and head+2 and HTTP requesters ask its real HTTP handler "
+           "for head+1 / head: a successful answer for round r carries round r, verifies under the chain key (own digest), randomness = sha256(signature). (network) " + _MACHINE + "Oracle: every successful base-store Put of round>=1 and every streamed beacon verifies under the harness's own digest + group key for exactly that round/previous signature. "
            "Non-trivial: a hostile item (forged partial or hostile sync stream) reached a node and beacons were stored afterwards in the case; distinct by configuration + full action history.",
     "C02": _MACHINE + "Oracle after every step: Put history appends only head+1 or repeats an identical value; store scan is hole-free from 0 (bolt) with prev(r)=sig(r-1) on chained; nodes byte-identical per round. "
            "Non-trivial: case with a restart, a heal after partition, reordered delivery, or a hostile sync stream; distinct by configuration + full action history.",
